@@ -460,7 +460,9 @@ def run_edb_cases(res, P, cases, exe, wd, ncases, rng):
                 d = cmp_files(P, out.files(), chk[1])
             if d and not bad:
                 bad = (d, list(hist))
-        if bad:
+        if bad and len([1 for v in res.violations if v[0].startswith("[%s] EDB" % P["id"])]) >= 5:
+            res.count("further_violating_walks_not_listed")
+        elif bad:
             d, hist = bad
             res.violations.append(("[%s] EDB %s: after %s: %s" % (P["id"], c["edb"], " ; ".join(x.replace("\t", " ") for x in hist[-6:]), d),
                                    save_replay(wd, P, "edb%d" % k, hist, d)))
